@@ -52,3 +52,6 @@ def run(ctx):
         "libc and CPython API functions behave as documented",
     ]
     lib_mem.c_lints(ctx, ctx.program(), scopes.lib_scope("C09"))
+    # Python: a public method that indexes a numpy array with the caller's id must test its lower bound (numpy wraps negatives)
+    py = ctx.python()
+    lib_kind3.py_slips(ctx, py, mods=("trees", "tables", "genotypes"), only=scopes.py_scope("C09"))
